@@ -11,9 +11,13 @@ the as-written-only statement `check` -/
 def LockFree (s : State) : Prop := (∀ m, s.mlock m = none) ∧ ∀ t d, s.pc t ≠ .check d
 
 inductive FStep (P : Project) (s : State) (t : Tid) : State → Prop where
-  | runFin (f rest) (hpc : s.pc t = .run) (hst : s.stack t = f :: rest) (htd : f.todo = []) :
+  | runBroken (f rest) (hpc : s.pc t = .run) (hst : s.stack t = f :: rest) (hb : P.broken f.mod = true) :
+      FStep P s t (setPc s t (.fin .err))
+  | runFin (f rest) (hpc : s.pc t = .run) (hst : s.stack t = f :: rest) (hb : P.broken f.mod = false)
+      (htd : f.todo = []) :
       FStep P s t (setPc s t (.fin .ok))
-  | runCall (f rest d ds) (hpc : s.pc t = .run) (hst : s.stack t = f :: rest) (htd : f.todo = d :: ds) :
+  | runCall (f rest d ds) (hpc : s.pc t = .run) (hst : s.stack t = f :: rest) (hb : P.broken f.mod = false)
+      (htd : f.todo = d :: ds) :
       FStep P s t (setPc s t (.call d))
   | callFound (d) (hpc : s.pc t = .call d) (hr : s.registry d = true) :
       FStep P s t (setPc s t (.setFound d))
@@ -51,10 +55,10 @@ inductive FStep (P : Project) (s : State) (t : Tid) : State → Prop where
   | unsetOk (f rest) (hpc : s.pc t = .unset .ok) (hst : s.stack t = f :: rest) :
       FStep P s t { s with loading := upd s.loading f.mod none,
                            stack := upd s.stack t (⟨f.mod, f.todo.tail⟩ :: rest), pc := upd s.pc t .run }
-  | unsetCyc (f rest) (hpc : s.pc t = .unset .cyc) (hst : s.stack t = f :: rest) :
-      FStep P s t (setPc { s with loading := upd s.loading f.mod none } t (.fin .cyc))
+  | unsetFail (r f rest) (hpc : s.pc t = .unset r) (hr : r ≠ .ok) (hst : s.stack t = f :: rest) :
+      FStep P s t (setPc { s with loading := upd s.loading f.mod none } t (.fin r))
   | fin (r f rest) (hpc : s.pc t = .fin r) (hst : s.stack t = f :: rest) :
-      FStep P s t { s with loaded := upd s.loaded f.mod true, failed := upd s.failed f.mod (r == .cyc),
+      FStep P s t { s with loaded := upd s.loaded f.mod true, result := upd s.result f.mod r,
                            ftime := upd s.ftime f.mod s.clock, clock := s.clock + 1,
                            stack := upd s.stack t rest, pc := upd s.pc t (.unset r) }
 
@@ -69,8 +73,11 @@ theorem fstep_of_next {P : Project} {s s' : State} {t : Tid} (lf : LockFree s)
     · cases h
     · rename_i f rest hst
       split at h
-      · rename_i htd; cases h; exact .runFin f rest hpc hst htd
-      · rename_i d ds htd; cases h; exact .runCall f rest d ds hpc hst htd
+      · rename_i hb; cases h; exact .runBroken f rest hpc hst hb
+      · rename_i hb
+        split at h
+        · rename_i htd; cases h; exact .runFin f rest hpc hst (by simpa using hb) htd
+        · rename_i d ds htd; cases h; exact .runCall f rest d ds hpc hst (by simpa using hb) htd
   · rename_i d hpc
     split at h
     · rename_i hr; cases h; exact .callFound d hpc hr
@@ -157,8 +164,8 @@ theorem fstep_of_next {P : Project} {s s' : State} {t : Tid} (lf : LockFree s)
     · rename_i f rest hst
       simp only [hm, Option.isSome_none, Bool.false_eq_true, ↓reduceIte] at h
       split at h
-      · cases h; exact .unsetOk f rest hpc hst
-      · cases h; exact .unsetCyc f rest hpc hst
+      · rename_i hr; subst hr; cases h; exact .unsetOk f rest hpc hst
+      · rename_i hr; cases h; exact .unsetFail r f rest hpc hr hst
   · rename_i r hpc
     split at h
     · cases h
